@@ -127,6 +127,7 @@ func runC02(c *report.Ctx) {
 	ruleEligibility(c, "all")
 	ruleExplicitInputsDistinct(c)
 	rulePayloadBeforeFeeLoop(c)
+	ruleReservationCacheOwnership(c)
 
 	// ---- reservation ---------------------------------------------------------------
 	c.Rule("reservation", "every success return of a Create* method passes MarkUsedUTXO, so a second draft cannot select the same coins", 4)
